@@ -128,6 +128,8 @@ class Engine:
         self.solver = make_solver(self.dag)
         self.rand = RandomEvaluator(self.dag)
         self.precheck_hits = 0
+        self._sat_cache = {}
+        self.prune_queries = 0
         self.gstack = []
         self.fstack = []      # parallel to gstack: literals marked 'known false' by that push
         self.false_cnt = {}   # literal -> number of active pushes that make it false
@@ -200,6 +202,55 @@ class Engine:
         if g == FALSE or self.known_false(g):
             return False
         return self.dag.and_(g, self.g()) != FALSE
+
+    def sat_guard_global(self, g):
+        """like sat_guard but independent of the current path (for pruning persistent cells)"""
+        if g == FALSE:
+            return False
+        if g == TRUE:
+            return True
+        key = ('G', g)
+        r = self._sat_cache.get(key)
+        if r is None:
+            if self.rand.witness(self.assumptions + [g]) is not None:
+                r = True
+            else:
+                self.prune_queries += 1
+                res, _ = self.solver.check(self.assumptions + [g], want_model=False, timeout_s=30)
+                r = res != 'unsat'
+            self._sat_cache[key] = r
+        return r
+
+    def prune_global(self, alts, threshold=8):
+        if len(alts) <= threshold:
+            return alts
+        return [(g, v) for g, v in alts if self.sat_guard_global(g)]
+
+    def sat_guard(self, g):
+        """False only if g is proven unsatisfiable on the current path (random models first, then the
+        solver); used to prune alternatives at points where enumeration would otherwise explode"""
+        if g == FALSE or self.known_false(g):
+            return False
+        full = self.dag.and_(g, self.g())
+        if full == FALSE:
+            return False
+        if full == TRUE:
+            return True
+        r = self._sat_cache.get(full)
+        if r is None:
+            if self.rand.witness(self.assumptions + [full]) is not None:
+                r = True
+            else:
+                self.prune_queries += 1
+                res, _ = self.solver.check(self.assumptions + [full], want_model=False, timeout_s=30)
+                r = res != 'unsat'
+            self._sat_cache[full] = r
+        return r
+
+    def prune(self, alts, threshold=8):
+        if len(alts) <= threshold:
+            return alts
+        return [(g, v) for g, v in alts if self.sat_guard(g)]
 
     def note_bool(self, c, true_guards, false_guards):
         """c == OR(true_guards), all guards mutually exclusive: remember what c decides"""
@@ -319,7 +370,7 @@ class Engine:
                 else:
                     seen[k] = len(ded)
                     ded.append((g, v))
-            out = ded
+            out = self.prune(ded, 64)
         return out
 
     def _inst(self, x):
@@ -532,7 +583,7 @@ class _SetBase:
                 b = d.and_(g, p ^ 1)
                 if b != FALSE:
                     nxt.append((b, t))
-            out = nxt
+            out = E.prune(nxt, 16)
             if len(out) > 4096:
                 raise Unsupported('set instantiation explosion')
         return [(g, frozenset(t)) for g, t in out]
@@ -899,13 +950,32 @@ class GList:
         r.alts = r._norm(alts)
         return r
 
+    KEEP_SEPARATE = 48
+
     @staticmethod
     def _norm(alts):
+        """alternatives with mutually exclusive guards. Identical tuples are merged; as long as there are
+        few alternatives they are kept apart even when they have the same length (this keeps the
+        elements of one alternative correlated, e.g. for sorted(S)[:4] + sorted(S)[-3:]); beyond
+        KEEP_SEPARATE they are merged position-wise per length"""
         d = E.dag
-        by = {}
+        out = []
         for g, t in alts:
             if g == FALSE:
                 continue
+            for i, (h, u) in enumerate(out):
+                if len(u) == len(t) and all(_same(a, b) for a, b in zip(t, u)):
+                    out[i] = (d.or_(h, g), u)
+                    break
+            else:
+                out.append((g, t))
+        if len(out) > GList.KEEP_SEPARATE:
+            out = E.prune_global(out, GList.KEEP_SEPARATE)
+        if len(out) <= GList.KEEP_SEPARATE:
+            out.sort(key=lambda gt: len(gt[1]))
+            return out
+        by = {}
+        for g, t in out:
             n = len(t)
             if n in by:
                 h, t0 = by[n]
@@ -924,7 +994,7 @@ class GList:
                 for g, t in alts:
                     nxt.append((d.and_(g, p), t + (v,)))
                     nxt.append((d.and_(g, p ^ 1), t))
-                alts = self._norm(nxt)
+                alts = self._norm(E.prune_global(nxt, 16))
             self.alts = alts
             self.gseq = None
         return self.alts
@@ -1086,8 +1156,28 @@ class GList:
         return GList._from([(d.and_(g, h), s + t) for g, s in a for h, t in b])
 
     def inst_list(self):
-        alts = self._need_alts()
         d = E.dag
+        if self.alts is None:
+            # guarded sequence: enumerate the presence patterns directly (keeps elements correlated)
+            out = [(TRUE, ())]
+            for p, v in self.gseq:
+                nxt = []
+                vi = E.inst(v)
+                for g, t in out:
+                    a = d.and_(g, p)
+                    if a != FALSE and not E.known_false(a):
+                        for h, w in vi:
+                            ah = d.and_(a, h)
+                            if ah != FALSE:
+                                nxt.append((ah, t + (w,)))
+                    b = d.and_(g, p ^ 1)
+                    if b != FALSE and not E.known_false(b):
+                        nxt.append((b, t))
+                out = E.prune(nxt, 16)
+                if len(out) > 4096:
+                    raise Unsupported('guarded sequence instantiation explosion')
+            return [(g, list(t)) for g, t in out]
+        alts = self._need_alts()
         out = []
         for g, t in alts:
             for h, tv in E.inst(t):
